@@ -4,6 +4,7 @@ import (
 	"crypto/sha256"
 	"encoding/json"
 	"fmt"
+	"hash/fnv"
 	"os"
 	"path/filepath"
 	"runtime"
@@ -239,3 +240,10 @@ func stackContains(s string) bool {
 }
 
 func runtimeStack(buf []byte) int { return runtime.Stack(buf, true) }
+
+// hashString is a stable hash used to assign enumerated cases to shards.
+func hashString(s string) uint64 {
+	h := fnv.New64a()
+	_, _ = h.Write([]byte(s))
+	return h.Sum64()
+}
